@@ -13,10 +13,12 @@ func CompileToGetDecoder(typ *runtime.Type) (Decoder, error) {
 	initDecoder()
 	typeptr := uintptr(unsafe.Pointer(typ))
 	if typeptr > typeAddr.MaxTypeAddr {
+		verifSlot(false, 0, typeptr)
 		return compileToGetDecoderSlowPath(typeptr, typ)
 	}
 
 	index := (typeptr - typeAddr.BaseTypeAddr) >> typeAddr.AddrShift
+	verifSlot(true, index, typeptr)
 	if dec := cachedDecoder[index]; dec != nil {
 		return dec, nil
 	}
